@@ -18,12 +18,28 @@ type RowResolver struct {
 	nCols   int
 	nLayers int
 	rowDec  *objects.StrListDecoder
+	// layouts holds one signature per layer describing where each of its columns
+	// ends up in the merged layout
+	layouts []string
 }
 
 func NewRowResolver(db objects.Store, cd *diff.ColDiff, buf *diff.BlockBuffer) *RowResolver {
 	nCols := cd.Len()
 	nLayers := cd.Layers()
+	layouts := make([]string, nLayers)
+	for layer := 0; layer < nLayers; layer++ {
+		b := make([]byte, 0, nCols*2)
+		for i := 0; i < nCols; i++ {
+			if j, ok := cd.OtherIdx[layer][uint32(i)]; ok {
+				b = append(b, byte(j>>8), byte(j))
+			} else {
+				b = append(b, 255, 255)
+			}
+		}
+		layouts[layer] = string(b)
+	}
 	return &RowResolver{
+		layouts: layouts,
 		buf:     buf,
 		cd:      cd,
 		nCols:   nCols,
@@ -61,7 +77,9 @@ func (r *RowResolver) tryResolve(m *Merge) (err error) {
 	layersWhereRowIsRemoved := []int{}
 	for i, sum := range m.Others {
 		if sum != nil {
-			uniqSums[string(sum)] = i
+			// rows with identical bytes are only interchangeable when their
+			// columns are laid out identically
+			uniqSums[string(sum)+r.layouts[i]] = i
 		} else {
 			layersWhereRowIsRemoved = append(layersWhereRowIsRemoved, i)
 		}
